@@ -457,6 +457,14 @@ def check_property(prop, reg, args, seed):
                             new_calls = sorted(c for c in call_names(fn_text_of(gen, item, fn_short)) if c not in base_calls[ob['id']] and c in UNDERSPECIFIED_CALLS)
                             if new_calls and 'needs_witness' not in rec:
                                 rec['needs_witness'] = 'the function now calls %s, which it does not call on the unchanged tree (a library function is known to the verifier only by the specification in vstd, which may say less than the function does)' % ', '.join(new_calls)[:200]
+                    loop_annotated = bool(item) and bool(re.search(r'\n\s*(invariant|invariant_except_break)\b', fn_text_of(gen, item, fn_short)))
+                    proof_internal = e['kind'] in ('loop-invariant-preserved', 'loop-invariant-init', 'loop-ensures-at-exit') or (e['kind'] == 'termination' and loop_annotated) \
+                        or (e['kind'] == 'assertion' and any(p['origin'].get('kind') == 'annotation' for p in e['primary']))
+                    if proof_internal and 'needs_witness' not in rec:
+                        # a loop invariant / measure is an annotation of the PROOF (contracts/*.vu), not a clause of the property: it can
+                        # stop holding because the code moved away from the proof (a local renamed so that the name the invariant
+                        # mentions now means something else - sub-agent refactoring HC20-25) as well as because the code is wrong
+                        rec['needs_witness'] = 'an annotation of the proof (%s: loop invariant / loop measure / proof hint) no longer holds; that alone does not tell a changed proof shape from changed behaviour' % e['kind']
                     if item and any(l['fn'] == fn_short for l in item.get('lost_annotations', [])):
                         rec['needs_witness'] = 'annotation anchor lost in %s: %s' % (fn_short, '; '.join(l['what'] for l in item['lost_annotations'] if l['fn'] == fn_short))
                     kf = next((k for k in known if k['obligation'] == oid and (k['at'] == '*' or k['at'] == at or (k['at'].endswith('...') and at.startswith(k['at'][:-3])))), None)
